@@ -12,7 +12,7 @@ use tree_sitter::{Node, Parser, Point, Query, QueryCursor, Tree};
 pub fn meta(tier: &str) -> CheckMeta {
     CheckMeta {
         id: "C11", level: "model_checking",
-        rule: "E-box over (query, tree, cursor configuration). Queries: a list of single patterns (all shapes of the C05 family that matter for cursor bookkeeping: nested, alternation, quantified, wildcard, fielded, non-rooted sibling groups), every ordered pair of them as a two-pattern query, and predicate queries (#eq? capture/string, #not-eq?, #any-eq?, #any-not-eq?, #match?, #not-match?, #any-of?, #not-any-of?) over single and quantified captures. Trees: seeds + strings of <=2 lexemes of stmts and jsonish, valid and erroneous. Per pair: (1) the capture stream's (pattern, capture, node) triples equal, as a multiset, those of the match stream and come in non-decreasing start-byte order; (2) for EVERY byte range [a,b) with a<b (documents <= 24 bytes; a grid beyond) and the corresponding point ranges: rooted patterns with a captured root return exactly the unrestricted matches whose root intersects the range, other patterns are sandwiched; containing ranges return exactly the matches all of whose captured nodes lie inside; (3) re-exec on the same cursor, a fresh cursor and a cursor previously used with another query and range give identical streams; max_start_depth in {0,1,2} equals filtering by root depth; (4) match limits 1,2,3,4,8: any difference from the unlimited streams implies did_exceed_match_limit; (5) remove_match at every capture position k: the rest of the stream is the original rest minus that match's captures; (6) the Rust iterators return exactly the raw matches for which our own evaluation of the text predicates holds, for contiguous and chunked text providers. Queued matches: every nesting structure of <=N arrays x first elements {1,2} and flat arrays of <=M numbers under multi-capture queries with text predicates; the capture stream is in document order and equals the predicate-filtered matches. Non-trivial = configurations whose unrestricted match list is non-empty.",
+        rule: "E-box over (query, tree, cursor configuration). Queries: a list of single patterns (all shapes of the C05 family that matter for cursor bookkeeping: nested, alternation, quantified, wildcard, fielded, non-rooted sibling groups), every ordered pair of them as a two-pattern query, and predicate queries (#eq? capture/string, #not-eq?, #any-eq?, #any-not-eq?, #match?, #not-match?, #any-of?, #not-any-of?) over single and quantified captures. Trees: seeds + strings of <=2 lexemes of stmts and jsonish, valid and erroneous. Per pair: (1) the capture stream's (pattern, capture, node) triples equal, as a multiset, those of the match stream and come in non-decreasing start-byte order; (2) for EVERY byte range [a,b) with a<b (documents <= 24 bytes; a grid beyond) and the corresponding point ranges: rooted patterns with a captured root return exactly the unrestricted matches whose root intersects the range, other patterns are sandwiched; containing ranges return exactly the matches all of whose captured nodes lie inside; the capture stream under a range equals the in-range captures of the matches under that range; (3) re-exec on the same cursor, a fresh cursor and a cursor previously used with another query and range give identical streams; max_start_depth in {0,1,2} equals filtering by root depth; (4) match limits 1,2,3,4,8: any difference from the unlimited streams implies did_exceed_match_limit; (5) remove_match at every capture position k: the rest of the stream is the original rest minus that match's captures; (6) the Rust iterators return exactly the raw matches for which our own evaluation of the text predicates holds, for contiguous and chunked text providers. Queued matches: every nesting structure of <=N arrays x first elements {1,2} and flat arrays of <=M numbers under multi-capture queries with text predicates; the capture stream is in document order and equals the predicate-filtered matches. Non-trivial = configurations whose unrestricted match list is non-empty.",
         assumptions: vec!["document order of captures is asserted on start bytes only".into()],
         exhaustive: true,
         bounds: json!({"tier": tier, "all_ranges_up_to_bytes": 24, "match_limits": [1, 2, 3, 4, 8]}),
@@ -257,6 +257,24 @@ fn check_pair(ctx: &Ctx, lang: &str, language: &tree_sitter::Language, qsrc: &st
                     for m in &base_m { if !m.caps.is_empty() && m.caps.iter().all(|c| { let n = &env.xt.nodes[c.1]; n.end > n.start && intersects(n, a, b) }) && !got.iter().any(|g| g.pattern == m.pattern && g.caps == m.caps) {
                         v(res, "range-drops-intersecting-match", format!("{} range {}..{}: match {:?} lies entirely in the range but was not returned", fpx, a, b, m), json!({"range": [a, b], "points": points})); break;
                     } }
+                }
+                // the capture stream under the same range: exactly the captures of the range-restricted matches whose node
+                // intersects the range (zero-width nodes left out on both sides)
+                {
+                    let mut c4 = QueryCursor::new();
+                    if points { c4.set_point_range(lt.point(a)..lt.point(b)); } else { c4.set_byte_range(a..b); }
+                    let gotcaps = env.captures(&mut c4, q);
+                    res.transitions += 1;
+                    let nz = |i: usize| { let n = &env.xt.nodes[i]; n.end > n.start };
+                    let mut want_t: Vec<(usize, u32, usize)> = got.iter().flat_map(|m| m.caps.iter().map(move |c| (m.pattern, c.0, c.1))).filter(|t| nz(t.2) && intersects(&env.xt.nodes[t.2], a, b)).collect();
+                    want_t.sort();
+                    want_t.dedup();
+                    let mut got_t: Vec<(usize, u32, usize)> = gotcaps.iter().map(|c| (c.pattern, c.cap, c.node)).filter(|t| nz(t.2)).collect();
+                    got_t.sort();
+                    // (compared as SETS of triples: when the walk ends at the range end, quantified patterns can hand out the
+                    // captures of a shorter and of a longer repetition count, which the match stream folds into one match)
+                    got_t.dedup();
+                    if want_t != got_t { v(res, "range-captures-differ-from-range-matches", format!("{} range {}..{}: capture stream {:?}, in-range captures of the matches under the same range {:?}", fpx, a, b, got_t, want_t), json!({"range": [a, b], "points": points})); }
                 }
                 // containing range
                 let mut c3 = QueryCursor::new();
